@@ -219,6 +219,28 @@ pub fn run(run: &mut Run) -> &'static str {
         for (i, gp) in ps.iter().enumerate() {
             st.class(&format!("src:{}", gp.src));
             check_position(&gp.pos, st)?;
+            // right afterwards, on the same thread: the look-alike with the colours exchanged in place
+            // (same occupied squares, same pawn squares, other owners) under the same demands. Whatever
+            // the evaluator remembers under a description that does not tell the two apart answers for
+            // the wrong one now.
+            if i % 3 == 0 {
+                let mut q = gp.pos.clone();
+                for sq in 0..64 {
+                    if let Some(pc) = q.board[sq] {
+                        q.board[sq] = Some(crate::refchess::Pc::new(!pc.white, pc.kind));
+                    }
+                }
+                q.white_to_move = !q.white_to_move;
+                q.castle = [false; 4];
+                q.ep = None;
+                if q.validate().is_ok() {
+                    st.class("look_alike_with_colours_exchanged_in_place");
+                    check_position(&q, st).map_err(|mut f| {
+                        f.msg = format!("(evaluated right after {}) {}", gp.pos.to_fen(), f.msg);
+                        f.explicit(explicit_fen(&gp.pos))
+                    })?;
+                }
+            }
             if i == 0 {
                 played = Some(to_game(&gp.pos));
             } else if let Some(g) = played.as_mut() {
